@@ -171,9 +171,19 @@ class Engine:
         c = [q for q in self._reader_callees_of_read() if parse in self.res.callees(q)]
         return self._one("frame assembler", c)
 
+    def _guarded_callee(self, pred):
+        q = f"{self.reader_cls}.read"
+        c = self._callee_under_guard(q, pred)
+        c = sorted({x for x in c if x.startswith(self.reader_cls + ".") and x not in (self.read_primitive, self.line_primitive)})
+        return c
+
     @cached_property
     def ubx_skipper(self) -> str:
-        """Reader method called from `read`, other than the assembler, that consumes through the read primitive."""
+        """Reader method called from `read` under a condition naming the UBX sync constant; failing that, the callee
+        (other than the assembler) that consumes through the read primitive."""
+        c = self._guarded_callee(lambda t: self._mentions_const(t, "rtcmreader", b"\xb5\x62"))
+        if len(c) == 1:
+            return c[0]
         c = [q for q in self._reader_callees_of_read()
              if q not in (self.frame_assembler, self.read_primitive, self.line_primitive, self.error_dispatcher)
              and self.read_primitive in self.res.callees(q) and not self.repo.funcs[q].is_property]
@@ -181,6 +191,17 @@ class Engine:
 
     @cached_property
     def nmea_skipper(self) -> str:
+        def pred(t):
+            for n in ast.walk(t):
+                if isinstance(n, ast.Name):
+                    v = self.const_of("rtcmreader", n)
+                    if isinstance(v, (list, tuple, set)) and v and all(isinstance(x, bytes) and x[:1] == b"$" for x in v):
+                        return True
+            return False
+
+        c = self._guarded_callee(pred)
+        if len(c) == 1:
+            return c[0]
         c = [q for q in self._reader_callees_of_read()
              if q not in (self.frame_assembler, self.read_primitive, self.line_primitive, self.error_dispatcher)
              and self.line_primitive in self.res.callees(q) and not self.repo.funcs[q].is_property]
